@@ -258,6 +258,13 @@ class Run:
                 self.kind_hist[KIND_NAMES.get(kind, str(kind))] += 1
                 io, mo = i["ops"][k], m["ops"][k]
                 trig = mo[0][3]
+                if io[0][2] and not mo[0][2]:
+                    # a panic of the implementation where the model has none is a violation wherever it happens,
+                    # also on operations a known finding marks (those only excuse what the cells hold)
+                    self.stats["ops_compared"] += 1
+                    self.add_violation("crash", "op %d: model crash=%d implementation crash=%d" % (k, mo[0][2], io[0][2]), cases_text, cid, k,
+                                       step=step)
+                    break
                 if trig and (is_span or trig & 4):
                     self.known_hits[trig] += 1
                     marked_ops.add(k)
@@ -269,10 +276,12 @@ class Run:
                         continue
                     break   # history mode, or lasting damage (D12 / D13): the rest of the case is tainted
                 self.stats["ops_compared"] += 1
-                if kinds_wanted and kind not in kinds_wanted and step:
-                    continue
-                self.stats["ops_projected"] += 1
-                self.proj_hist[KIND_NAMES.get(kind, str(kind))] += 1
+                # every operation is compared (damage done by an operation of the property's kind can surface at a
+                # later operation of another kind, e.g. rows that share storage after a scroll); the projection
+                # counts the operations of the kinds the property is about
+                if not (kinds_wanted and kind not in kinds_wanted and step):
+                    self.stats["ops_projected"] += 1
+                    self.proj_hist[KIND_NAMES.get(kind, str(kind))] += 1
                 self.distinct.add(hashlib.md5(repr((mo[1:3], kind)).encode()).hexdigest())
                 if mo[0][2] != io[0][2]:
                     self.add_violation("crash", "op %d: model crash=%d implementation crash=%d" % (k, mo[0][2], io[0][2]), cases_text, cid, k,
